@@ -94,6 +94,7 @@ func (session *HermesSession) Run(workingDir string, args []string, logID string
 			session.WriteYamlConfig(herPath.config, NewDefaultConfig())
 		}
 		driConfig := readConfig(&g, argValues, &herPath)
+		verifConfig(&driConfig, &g)
 		herPath.SetOutputExtension(driConfig.ResultFileExt)
 
 		if setFileExtension {
